@@ -179,6 +179,9 @@ func (r *runner) randomStep(rng *sim.Rng, c cfg) {
 	}
 	life := lifeGrid[rng.Intn(len(lifeGrid))]
 	ctr := r.centre(app, pair)
+	if r.st["lastPool"].([]int64)[app-1] >= MaxPool { // the fixture's account universe has MaxPool reserves per app
+		w[6], w[7] = 0, 0
+	}
 	switch rng.Weighted(w) {
 	case 0, 1:
 		dir := "B"
@@ -425,19 +428,20 @@ func driveRandom(lg *sim.Log, base *World, seed int64, runs, steps int) {
 }
 
 // ---------------------------------------------------------------------------------------------------
-// model -> code: every transition of the bounded model (MC_Liquidity, exhaustive, -workers 1) is executed
-// once on the real code, walking the model's graph depth-first on cache branches of the real state.
+// model -> code: the bounded model (MC_Liquidity) prints its alphabet of action instances; the same alphabet
+// is explored exhaustively, breadth first, on the REAL code (explicit-state exploration of the implementation
+// on cache branches, de-duplicated by the projected state, bounded by depth and a node budget).  The model's
+// block discipline is kept: EndBlock is followed by BeginBlock only.
 
-type edge struct {
+type act struct {
 	A    string
 	Args M
-	Post string
 }
 
 func hashOf(v interface{}) string {
 	b, _ := json.Marshal(v)
 	s := sha256.Sum256(b)
-	return hex.EncodeToString(s[:8])
+	return hex.EncodeToString(s[:10])
 }
 
 func normArgs(v interface{}) M {
@@ -464,17 +468,21 @@ func normArgs(v interface{}) M {
 	return out
 }
 
-func walkModel(lg *sim.Log, base *World, tfile string, maxEdges int) (int, int, error) {
+type alphabet struct {
+	App   int64
+	Scope string
+	Acts  []act
+}
+
+func readAlphabets(tfile string) ([]alphabet, error) {
 	f, err := os.Open(tfile)
 	if err != nil {
-		return 0, 0, err
+		return nil, err
 	}
 	defer f.Close()
-	graph := map[string][]edge{}
-	var init string
+	var out []alphabet
 	sc := bufio.NewScanner(f)
 	sc.Buffer(make([]byte, 1<<20), 1<<28)
-	ne := 0
 	for sc.Scan() {
 		js := sim.TLCJSON(sc.Text())
 		if js == "" {
@@ -484,44 +492,70 @@ func walkModel(lg *sim.Log, base *World, tfile string, maxEdges int) (int, int, 
 		dec.UseNumber()
 		var m map[string]interface{}
 		if err := dec.Decode(&m); err != nil {
-			return 0, 0, fmt.Errorf("bad transition line: %v", err)
+			return nil, fmt.Errorf("bad alphabet line: %v", err)
 		}
-		pre, post := hashOf(m["pre"]), hashOf(m["post"])
-		if n, ok := m["n"].(json.Number); ok && n.String() == "0" && init == "" {
-			init = pre
+		al := alphabet{Scope: m["scope"].(string)}
+		al.App, _ = m["app"].(json.Number).Int64()
+		for _, x := range m["acts"].([]interface{}) {
+			xm := x.(map[string]interface{})
+			al.Acts = append(al.Acts, act{A: xm["a"].(string), Args: normArgs(xm["args"])})
 		}
-		graph[pre] = append(graph[pre], edge{A: m["a"].(string), Args: normArgs(m["args"]), Post: post})
-		ne++
-	}
-	if init == "" {
-		return 0, 0, fmt.Errorf("no initial transition in %s", tfile)
-	}
-	seen := map[string]bool{init: true}
-	done := 0
-	var dfs func(r *runner, ms string)
-	dfs = func(r *runner, ms string) {
-		es := graph[ms]
-		sort.SliceStable(es, func(i, j int) bool { return es[i].A < es[j].A })
-		for _, e := range es {
-			if done >= maxEdges {
-				return
+		sort.SliceStable(al.Acts, func(i, j int) bool {
+			if al.Acts[i].A != al.Acts[j].A {
+				return al.Acts[i].A < al.Acts[j].A
 			}
-			b := r.fork(r.run)
+			return hashOf(al.Acts[i].Args) < hashOf(al.Acts[j].Args)
+		})
+		out = append(out, al)
+	}
+	return out, nil
+}
+
+type bfsItem struct {
+	r     *runner
+	depth int
+	ended bool // an EndBlock was the last action
+}
+
+func explore(lg *sim.Log, base *World, al alphabet, budget, maxDepth int) (executed, states int) {
+	root := newRunner(lg, base, fmt.Sprintf("explore:%s:%d", al.Scope, al.App))
+	root.step("CreatePair", M{"u": "u1", "app": al.App, "base": "uaa", "quote": "ubb"})
+	seen := map[string]bool{hashOf(root.st): true}
+	queue := []bfsItem{{r: root}}
+	for len(queue) > 0 && executed < budget {
+		it := queue[0]
+		queue = queue[1:]
+		for _, a := range al.Acts {
+			if executed >= budget {
+				break
+			}
+			if (a.A == "BeginBlock") != it.ended {
+				continue
+			}
+			b := it.r.fork(it.r.run)
 			args := M{}
-			for k, v := range e.Args {
+			for k, v := range a.Args {
 				args[k] = v
 			}
-			b.step(e.A, args)
-			done++
-			if !seen[e.Post] {
-				seen[e.Post] = true
-				dfs(b, e.Post)
+			if a.A == "EndBlock" {
+				args = M{}
+			}
+			res := b.step(a.A, args)
+			executed++
+			if ok, _ := res["ok"].(bool); !ok {
+				continue
+			}
+			h := hashOf(b.st)
+			if a.A == "EndBlock" {
+				h += "/end"
+			}
+			if !seen[h] && it.depth+1 < maxDepth {
+				seen[h] = true
+				queue = append(queue, bfsItem{r: b, depth: it.depth + 1, ended: a.A == "EndBlock"})
 			}
 		}
 	}
-	root := newRunner(lg, base, "walk")
-	dfs(root, init)
-	return ne, done, nil
+	return executed, len(seen)
 }
 
 func Main(args []string) int {
@@ -530,20 +564,25 @@ func Main(args []string) int {
 	seed := fs.Int64("seed", 1, "seed")
 	runs := fs.Int("runs", 10, "random runs")
 	steps := fs.Int("steps", 120, "steps per random run")
-	model := fs.String("model", "", "file with TLC transition lines of MC_Liquidity")
-	maxEdges := fs.Int("max-edges", 200000, "bound on executed model transitions")
+	model := fs.String("model", "", "file with the alphabet lines printed by MC_Liquidity")
+	budget := fs.Int("budget", 1500, "node budget of the exhaustive exploration per alphabet")
+	depth := fs.Int("depth", 6, "depth bound of the exhaustive exploration")
 	fs.Parse(args)
 
 	lg := &sim.Log{}
 	base := NewWorld(DefaultPars(), 50000000)
 	ne, done := 0, 0
 	if *model != "" {
-		// the model's fixture: both pairs of app 1 / pair 1 of app 2 are created before the walk starts
-		var err error
-		ne, done, err = walkModel(lg, base, *model, *maxEdges)
+		als, err := readAlphabets(*model)
 		if err != nil {
 			fmt.Fprintln(os.Stderr, err)
 			return 2
+		}
+		for _, al := range als {
+			e, st := explore(lg, base, al, *budget, *depth)
+			ne += len(al.Acts)
+			done += e
+			fmt.Printf("explore %s app %d: alphabet=%d executed=%d distinct_states=%d\n", al.Scope, al.App, len(al.Acts), e, st)
 		}
 	}
 	driveRandom(lg, base, *seed, *runs, *steps)
@@ -551,6 +590,6 @@ func Main(args []string) int {
 		fmt.Fprintln(os.Stderr, err)
 		return 2
 	}
-	fmt.Printf("liquidity: model_edges=%d executed=%d nodes=%d\n", ne, done, len(lg.Nodes))
+	fmt.Printf("liquidity: alphabet=%d explored=%d nodes=%d\n", ne, done, len(lg.Nodes))
 	return 0
 }
